@@ -124,6 +124,22 @@ def p_match( ctx ):
     for n in cfg.nodes:
         if n.kind == 'stmt' and isinstance( n.stmt, ast.Assert ):
             conj = n.stmt.test.values if isinstance( n.stmt.test, ast.BoolOp ) and isinstance( n.stmt.test.op, ast.And ) else [ n.stmt.test ]
+            # by value: the whole test on ( context, context ) x ( service, service ) cells - true exactly when the contexts are EQUAL ( an empty
+            # reply context is not "no context": it is another one ) and the reply's service is the request's with the reply bit
+            ctxs = sorted( x for x in names_in( n.stmt.test ) if 'ctx' in x.lower() or 'context' in x.lower() )
+            svcs = sorted( { dotted( a_ ) for a_ in ast.walk( n.stmt.test ) if isinstance( a_, ast.Attribute ) and a_.attr == 'service' and dotted( a_ ) } )
+            if len( ctxs ) == 2 and len( svcs ) == 2:
+                def table( rs, qs ):
+                    out = []
+                    for a_, b_ in (( b'c1', b'c1' ), ( b'c1', b'' ), ( b'', b'c1' ), ( b'c1', b'c2' ), ( b'', b'' )):
+                        for r_, q_ in (( 0xCC, 0x4C ), ( 0x4C, 0x4C ), ( 0xCD, 0x4C ), ( 0x8A, 0x4C )):
+                            v_ = try_fold( n.stmt.test, { ctxs[0]: a_, ctxs[1]: b_, rs: r_, qs: q_ }, default='?' )
+                            out.append( None if v_ == '?' else bool( v_ ))
+                    return out
+                want = [ a_ == b_ and r_ == q_ | 0x80 for a_, b_ in (( b'c1', b'c1' ), ( b'c1', b'' ), ( b'', b'c1' ), ( b'c1', b'c2' ), ( b'', b'' )) for r_, q_ in (( 0xCC, 0x4C ), ( 0x4C, 0x4C ), ( 0xCD, 0x4C ), ( 0x8A, 0x4C )) ]
+                if table( svcs[0], svcs[1] ) == want or table( svcs[1], svcs[0] ) == want:
+                    ctx_ok = svc_ok = n
+                continue
             for c in conj:
                 if pmatch( c, '_a == _b' ) and 'ctx' in txt( c ) and len( { x for x in names_in( c ) } ) == 2:
                     ctx_ok = n
